@@ -298,6 +298,11 @@ func c13Timeout(id string, class int, payloadKind int, seed int64) core.Scenario
 		}
 		if class == 2 || class == 3 {
 			if class == 2 {
+				// the reply may come long after the timeout was reported (an implementation that only waits a grace
+				// period for late replies is not enough): 0, 1.3 s or 2.6 s later
+				late := []time.Duration{0, 0, 0, 1300 * time.Millisecond, 2600 * time.Millisecond}[int(seed%5+5)%5]
+				rep["reply_this_long_after_the_timeout"] = late.String()
+				time.Sleep(late)
 				close(goAhead)
 			}
 			select {
